@@ -31,7 +31,7 @@ theorem readTLV_split (d : Dialect) (bs : Bytes) (e : Elem) (rest : Bytes) (h : 
 its fields were decoded from `e.content`; a RawValue is exactly `e` -/
 def RawOf (d : Dialect) (m : Mode) (t : ATy) (v : AVal) (e : Elem) : Prop :=
   match t with
-  | .struct raw fs => ∃ vs left, parseFields d m fs e.content = .ok (vs, left) ∧ v = .struct (if raw then some e.full else none) vs
+  | .struct raw fs => ∃ vs left, parseFields d (m.under raw) fs e.content = .ok (vs, left) ∧ v = .struct (if raw then some e.full else none) vs
   | .rawValue => v = .raw e.tl.cls e.tl.tag e.tl.compound e.content e.full
   | _ => True
 
@@ -70,9 +70,9 @@ theorem plainField_readTLV (d : Dialect) (m : Mode) (t : ATy) (p : FP) (bs : Byt
       ∃ tl utag inner consumed, readTLV (d.forMode m) bs = .ok (⟨tl, inner, consumed⟩, rest) ∧ k tl utag inner consumed = .ok v := by
     intro k hk
     cases fieldShell_ok _ _ _ _ _ _ _ _ hk with
-    | emptyAbsent _ ho _ _ => rw [hopt] at ho; cases ho
+    | emptyAbsent _ ho _ _ _ => rw [hopt] at ho; cases ho
     | any ha _ _ => rw [hany] at ha; cases ha
-    | absent _ ho _ _ => rw [hopt] at ho; cases ho
+    | absent _ ho _ _ _ => rw [hopt] at ho; cases ho
     | flagSet hh _ _ =>
       unfold header at hh
       cases h0 : parseTagLen (d.forMode m) bs with
@@ -94,7 +94,7 @@ theorem plainField_readTLV (d : Dialect) (m : Mode) (t : ATy) (p : FP) (bs : Byt
     simp only [parseField] at h
     obtain ⟨tl, utag, inner, consumed, hr, hkk⟩ := hdr _ h
     refine ⟨_, hr, ?_⟩
-    cases hp1 : parseFields d m fs inner with
+    cases hp1 : parseFields d (m.under raw) fs inner with
     | error e => rw [hp1] at hkk; cases hkk
     | ok y =>
       obtain ⟨vs, left⟩ := y
@@ -162,5 +162,42 @@ theorem parseFields_slices (d : Dialect) (m : Mode) : ∀ (fs : AFields) (bs : B
     obtain ⟨v, pre, post, e, hv, hb, hr, hraw⟩ := parseFields_slices d m rest bs' vs left h2 i p t hg hp
     refine ⟨v, pre0 ++ pre, post, e, by simpa using hv, ?_, hr, hraw⟩
     rw [e0, hb]; simp
+
+/-- the element's octets are its header followed by its content -/
+theorem readTLV_full (d : Dialect) (bs : Bytes) (e : Elem) (rest : Bytes) (h : readTLV d bs = .ok (e, rest)) :
+    ∃ hdr, e.full = hdr ++ e.content ∧ 2 ≤ hdr.length ∧ e.content.length = e.tl.len := by
+  unfold readTLV at h
+  cases h0 : parseTagLen d bs with
+  | error err => rw [h0] at h; cases h
+  | ok x =>
+    obtain ⟨tl, r⟩ := x
+    rw [h0] at h
+    simp only [] at h
+    by_cases hl : tl.len > r.length
+    · rw [if_pos hl] at h; cases h
+    · rw [if_neg hl] at h
+      cases h
+      obtain ⟨pre, rfl, hp⟩ := parseTagLen_consumed d _ _ _ h0
+      refine ⟨pre, ?_, hp, by simp; omega⟩
+      simp only []
+      have e1 : (pre ++ r).length - r.length + tl.len = pre.length + tl.len := by simp
+      rw [e1, List.take_append, List.take_of_length_le (by omega)]
+      congr 1
+      have : pre.length + tl.len - pre.length = tl.len := by omega
+      rw [this]
+
+/-- `es` are the consecutive elements `readTLV` finds from the start of `bs`, and `post` is what follows them -/
+def ElemsAt (d : Dialect) : Bytes → List Elem → Bytes → Prop
+  | bs, [], post => bs = post
+  | bs, e :: es, post => ∃ bs', readTLV d bs = .ok (e, bs') ∧ ElemsAt d bs' es post
+
+/-- one plain field at the head of a field list: it is decoded from the element at the head of the content -/
+theorem plain_step (d : Dialect) (m : Mode) (t : ATy) (rest : AFields) (bs : Bytes) (ws : List AVal) (left : Bytes)
+    (ht : t.isAny = false) (h : parseFields d m (.cons {} t rest) bs = .ok (ws, left)) :
+    ∃ e bs' v vs, readTLV (d.forMode m) bs = .ok (e, bs') ∧ RawOf d m t v e ∧
+      parseFields d m rest bs' = .ok (vs, left) ∧ ws = v :: vs := by
+  obtain ⟨v, bs', vs, h1, h2, rfl⟩ := parseFields_cons d m _ _ _ _ _ _ h
+  obtain ⟨e, hr, hraw⟩ := plainField_readTLV d m _ _ _ _ _ ⟨rfl, rfl, ht⟩ h1
+  exact ⟨e, bs', v, vs, hr, hraw, h2, rfl⟩
 
 end CTV.Der
